@@ -219,6 +219,235 @@ def gen_warned(rng, want=None):
     return files, order
 
 
+# ------------------------------------------------------------------------------------------------
+# Synthetic constructs x options. Map fields (a synthesized FooEntry message), groups (a synthesized message and a
+# lower-cased field), proto3 optional fields (a synthesized oneof), editions fields that look like groups: what the
+# source compilation synthesizes from the declaration, the re-link has to recognise again from the descriptor proto
+# alone (isValidMap, synthetic-oneof rules, group-likeness), whatever pseudo-options (json_name, default) and options
+# (deprecated, packed, lazy, jstype, ctype, retention, targets, debug_redact, custom options with scalar and message
+# values, features) the declaration carries and however its name is spelled.
+#
+# TWINS: a repeated non-map field declared BEFORE a map field whose name gives the same map-entry name
+# (`repeated int32 Foo_bar = 1; map<string, string> foo_bar = 2;`, both FooBarEntry) compiles from source and fails to
+# re-link on the unchanged tree (genuine defect: corpus/C10/map-entry-twin-*.proto, repair fixes/C10-map-entry-twin.diff).
+# The stratum is generated only with VERIF_C10_MAP_TWINS=1 (default off).
+MAP_TWINS = os.environ.get("VERIF_C10_MAP_TWINS", "0") == "1"
+NAME_SHAPES = ["attrs%d", "foo_bar%d", "fooBar%d", "foo__bar%d", "_foo%d", "foo%d_", "foo1_2x%d", "FOO_BAR%d", "Foo%d", "a%d", "x_Y_z%d",
+               "foo_Bar%d", "f%d_b_c", "__x%d", "X%dEntry", "entry%d"]
+TWIN_SHAPES = [("Foo_bar%d", "foo_bar%d"), ("foo_Bar%d", "foo_bar%d"), ("foo_bar%d", "fooBar%d"), ("Ab%d", "ab%d"), ("a_b%d", "a__b%d")]
+MAP_KEYS = ["string", "int32", "int64", "uint32", "bool", "sint64", "fixed32"]
+
+
+def gen_synth(rng, want=None, twins=False):
+    """A program of 1-2 files. Every message takes some of: map fields, groups (proto2), proto3 optional fields, group-like
+    delimited fields (editions), real oneofs around them; every one of them with a random subset of the options that are
+    legal on it and a name of one of NAME_SHAPES. `want` forces one construct into the first message of the last file."""
+    files, order = {}, []
+    uid = [0]
+
+    def nid():
+        uid[0] += 1
+        return uid[0]
+    nfiles = rng.range(1, 2)
+    prev = None
+    for i in range(nfiles):
+        last = i == nfiles - 1
+        syn = rng.choice(["proto2", "proto3", "editions"])
+        if last and want == "group":
+            syn = "proto2"
+        if last and want == "p3opt":
+            syn = "proto3"
+        if last and want == "grouplike":
+            syn = "editions"
+        p2, p3, ed = syn == "proto2", syn == "proto3", syn == "editions"
+        lab = "optional " if p2 else ""
+        pkg = rng.choice(["", "s%d" % i, "s.t%d" % i])
+        pfx = "." + (pkg + "." if pkg else "")
+        head = ['edition = "2023";' if ed else 'syntax = "%s";' % syn]
+        if pkg:
+            head.append("package %s;" % pkg)
+        head.append('import "google/protobuf/descriptor.proto";')
+        if prev and rng.chance(2, 3):
+            head.append('import "%s";' % prev[0])
+        else:
+            prev = None if i == 0 else prev
+        imported = prev[1] if (prev and 'import "%s";' % prev[0] in head) else []
+        if ed and rng.chance(1, 4):
+            head.append("option features.message_encoding = DELIMITED;")
+        if ed and rng.chance(1, 4):
+            head.append("option features.field_presence = IMPLICIT;")
+        k0 = nid()
+        base = 50000 + 100 * i
+        body = ["message Opt%d { %sint32 a = 1; %sstring b = 2; map<string, int32> m = 3; }" % (k0, lab, lab),
+                "enum En%d { EN%d_ZERO = 0; EN%d_ONE = 1; }" % (k0, k0, k0),
+                "extend google.protobuf.FieldOptions { %sint32 fo%d = %d; %sOpt%d fmo%d = %d; repeated string frs%d = %d; }" % (lab, k0, base + 1, lab, k0, k0, base + 2, k0, base + 3),
+                "extend google.protobuf.MessageOptions { %sint32 mo%d = %d; %sOpt%d mmo%d = %d; }" % (lab, k0, base + 4, lab, k0, k0, base + 5),
+                "extend google.protobuf.OneofOptions { %sint32 oo%d = %d; }" % (lab, k0, base + 6)]
+        opt_pfx = (pkg + "." if pkg else "")
+        msg_types = [pfx + "Opt%d" % k0] + imported
+        exported = [pfx + "Opt%d" % k0]
+
+        def field_opts(kind, typ, name, allow_default=False, strs=False, in_oneof=False):
+            """kind: map | group | msg | scalar | repeated; strs: a map with a string key or value"""
+            o = []
+            if rng.chance(1, 2):
+                o.append('json_name = "%s"' % rng.choice(["attributes%d" % nid(), "j%d" % nid(), name, name.upper(), name.replace("_", ""), "%sEntry" % name]))
+            if rng.chance(1, 4):
+                o.append("deprecated = true")
+            if rng.chance(1, 3):
+                o.append("(%sfo%d) = %d" % (opt_pfx, k0, rng.range(-9, 999)))
+            if rng.chance(1, 4):
+                o.append(rng.choice(['(%sfmo%d) = { a: %d b: "x" m: { key: "k" value: 2 } }' % (opt_pfx, k0, rng.range(0, 99)), "(%sfmo%d).a = %d" % (opt_pfx, k0, rng.range(0, 99))]))
+            if rng.chance(1, 6):
+                o += ['(%sfrs%d) = "p"' % (opt_pfx, k0), '(%sfrs%d) = "q"' % (opt_pfx, k0)]
+            if rng.chance(1, 8):
+                o.append("retention = %s" % rng.choice(["RETENTION_SOURCE", "RETENTION_RUNTIME"]))
+            if rng.chance(1, 8):
+                o.append("targets = TARGET_TYPE_FIELD")
+            if rng.chance(1, 8):
+                o.append("debug_redact = true")
+            if kind == "msg" and not ed and rng.chance(1, 5):
+                o.append("lazy = true")
+            if typ == "string" and kind != "map" and rng.chance(1, 4):
+                o.append("ctype = %s" % rng.choice(["CORD", "STRING_PIECE"]))
+            if typ in ("int64", "uint64", "sint64", "fixed64") and kind != "map" and rng.chance(1, 3):
+                o.append("jstype = %s" % rng.choice(["JS_STRING", "JS_NUMBER"]))
+            if kind == "repeated" and typ in ("int32", "int64", "bool", "sint64", "fixed32") and not ed and rng.chance(1, 2):
+                o.append("packed = %s" % rng.choice(["true", "false"]))
+            if allow_default and rng.chance(1, 2):
+                dv = {"int32": "-7", "string": '"a\\"b"', "int64": "0x7FFFFFFFFFFFFFFF", "bool": "true", "bytes": '"\\001\\xff"'}.get(typ)
+                if dv:
+                    o.append("default = %s" % dv)
+            if ed:
+                if kind == "map" and strs and rng.chance(1, 3):
+                    o.append("features.utf8_validation = %s" % rng.choice(["NONE", "VERIFY"]))
+                if kind == "msg" and rng.chance(1, 2):
+                    o.append("features.message_encoding = %s" % rng.choice(["DELIMITED", "LENGTH_PREFIXED"]))
+                if kind == "scalar" and not in_oneof and rng.chance(1, 3):
+                    o.append("features.field_presence = %s" % rng.choice(["EXPLICIT", "IMPLICIT", "LEGACY_REQUIRED"]))
+            o = rng.shuffle(o)
+            return " [%s]" % ", ".join(o) if o else ""
+
+        def msg_opts(ind):
+            o = []
+            if rng.chance(1, 4):
+                o.append(ind + "option deprecated = true;")
+            if rng.chance(1, 3):
+                o.append(ind + "option (%smo%d) = %d;" % (opt_pfx, k0, rng.range(0, 99)))
+            if rng.chance(1, 4):
+                o.append(ind + "option (%smmo%d) = { a: 1 m: { key: \"z\" value: 1 } };" % (opt_pfx, k0))
+            return o
+
+        def gen_msg(depth, forced):
+            mname = "S%d" % nid()
+            lines = ["message %s {" % mname] + msg_opts("  ")
+            num = [0]
+            stmts = []
+
+            def nxt():
+                num[0] += rng.range(1, 3)
+                return num[0]
+            kinds = [k for k in ("map", "map", "group", "p3opt", "grouplike", "plain", "oneof", "nested") if rng.chance(1, 2)]
+            if forced:
+                kinds.append(forced)
+            if twins:
+                kinds.append("twin")
+            for kind in kinds:
+                shape = rng.choice(NAME_SHAPES)
+                name = shape % nid()
+                if kind == "map":
+                    kt = rng.choice(MAP_KEYS)
+                    vt = rng.choice(["string", "int32", "bytes", "double", rng.choice(msg_types), pfx + "En%d" % k0, mname])
+                    stmts.append("  map<%s, %s> %s = %d%s;" % (kt, vt, name, nxt(), field_opts("map", vt, name, strs="string" in (kt, vt))))
+                elif kind == "twin":
+                    a, b = rng.choice(TWIN_SHAPES)
+                    k = nid()
+                    # a twin pair whose default JSON names collide is only a warning in proto2
+                    if (a, b) in (("foo_bar%d", "fooBar%d"), ("a_b%d", "a__b%d"), ("foo_Bar%d", "foo_bar%d")) and not p2:
+                        a, b = "Foo_bar%d", "foo_bar%d"
+                    stmts.append("  repeated int32 %s = %d;\n  map<string, string> %s = %d;" % (a % k, nxt(), b % k, nxt()))
+                elif kind == "group" and p2:
+                    gname = rng.choice(["Grp%d", "G%d", "My_Group%d", "GRP%d", "Gr%dEntry"]) % nid()
+                    glabel = rng.choice(["optional", "repeated", "required"])
+                    inner = msg_opts("    ")
+                    inner.append("    optional int32 g_x%d = 1%s;" % (nid(), field_opts("scalar", "int32", "g_x", allow_default=True)))
+                    if rng.chance(1, 2):
+                        inner.append("    map<string, %s> in_grp%d = 2%s;" % (rng.choice(["int32", mname]), nid(), field_opts("map", "x", "in_grp", strs=True)))
+                    if rng.chance(1, 3):
+                        inner.append("    optional group Inner%d = 3%s { optional int32 y = 1; }" % (nid(), field_opts("group", "g", "inner")))
+                    stmts.append("  %s group %s = %d%s {\n%s\n  }" % (glabel, gname, nxt(), field_opts("group", "g", gname.lower()), "\n".join(inner)))
+                elif kind == "p3opt" and p3:
+                    typ = rng.choice(["int32", "string", "int64", "bool", rng.choice(msg_types), pfx + "En%d" % k0])
+                    stmts.append("  optional %s %s = %d%s;" % (typ, name, nxt(), field_opts("msg" if typ.startswith(".") and "En" not in typ else "scalar", typ, name)))
+                    if rng.chance(1, 3) and name[0].islower():
+                        # a name the synthetic oneof of `name` would take
+                        stmts.append("  %s _%s = %d;" % (rng.choice(["int32", "optional int32", "repeated string"]), name, nxt()))
+                elif kind == "grouplike" and ed:
+                    tn = rng.choice(["Grp%d", "MyGroup%d", "grp%d", "GRP%d"]) % nid()
+                    fname = rng.choice([tn.lower(), tn.lower(), tn.upper() if tn.upper() != tn else tn.lower(), "x" + tn.lower()])
+                    if fname == tn:
+                        fname = "x" + fname
+                    stmts.append("  message %s { int32 v = 1; map<int32, int32> mm = 2; }\n  %s%s %s = %d%s;" % (
+                        tn, rng.choice(["", "", "repeated "]), tn, fname, nxt(), field_opts("msg", tn, fname)))
+                elif kind == "oneof":
+                    members = []
+                    for _ in range(rng.range(1, 3)):
+                        typ = rng.choice(["int32", "string", rng.choice(msg_types)])
+                        n2 = rng.choice(NAME_SHAPES) % nid()
+                        members.append("    %s %s = %d%s;" % (typ, n2, nxt(), field_opts("msg" if typ.startswith(".") else "scalar", typ, n2, in_oneof=True)))
+                    if p2 and rng.chance(1, 2):
+                        members.append("    group OG%d = %d%s { optional int32 z = 1; }" % (nid(), nxt(), field_opts("group", "g", "og")))
+                    oo = ["    option (%soo%d) = %d;" % (opt_pfx, k0, rng.range(0, 9))] if rng.chance(1, 2) else []
+                    stmts.append("  oneof %s {\n%s\n  }" % (rng.choice(["o%d", "_o%d", "X_o%d"]) % nid(), "\n".join(oo + members)))
+                elif kind == "nested" and depth < 2:
+                    stmts.append("\n".join("  " + ln for ln in gen_msg(depth + 1, None)[1]))
+                else:
+                    typ = rng.choice(["int32", "string", "int64", "bool", "bytes"])
+                    rep = rng.chance(1, 3)
+                    has_pres = not rep and (p2 or (ed and 'field_presence = IMPLICIT' not in "\n".join(head)))
+                    fo = field_opts("repeated" if rep else "scalar", typ, name, allow_default=has_pres)
+                    if "default =" in fo and ("IMPLICIT" in fo):
+                        fo = ""
+                    if "LEGACY_REQUIRED" in fo and "default" in fo:
+                        fo = ""
+                    stmts.append("  %s%s %s = %d%s;" % ("repeated " if rep else lab, typ, name, nxt(), fo))
+            if not stmts:
+                stmts.append("  %sint32 only%d = 1;" % (lab, nid()))
+            lines += rng.shuffle(stmts)
+            lines.append("}")
+            return mname, lines
+        for j in range(rng.range(1, 3)):
+            mname, lines = gen_msg(0, want if (last and j == 0) else None)
+            body += lines
+            exported.append(pfx + mname)
+            msg_types.append(pfx + mname)
+        name = "s%d.proto" % i
+        files[name] = "\n".join(head + body) + "\n"
+        order.append(name)
+        prev = (name, exported)
+    return files, order
+
+
+CORPUS_SYNTH = [
+    # map fields with a custom json_name and other options, names of several shapes
+    'syntax = "proto3";\npackage demo;\nmessage Config { string name = 1; map<string, string> attrs = 2 [json_name = "attributes"]; map<int32, Config> foo_bar = 3 [deprecated = true, json_name = "FOO"]; '
+    'map<string, int32> _lead = 4 [json_name = "lead"]; map<string, int32> trail_ = 5 [json_name = "trail_"]; map<string, int32> x__y = 6 [json_name = "xy"]; map<bool, bytes> fooBar2 = 7 [json_name = "foo_bar2"]; }\n',
+    'syntax = "proto2";\nimport "google/protobuf/descriptor.proto";\nextend google.protobuf.FieldOptions { optional int32 fo = 50001; optional O fmo = 50002; }\nmessage O { optional int32 a = 1; map<string, int32> m = 2 [json_name = "M"]; }\n'
+    'message M { map<string, O> m1 = 1 [(fo) = 3, json_name = "one", (fmo) = { a: 1 m: { key: "k" value: 1 } }, lazy = true]; '
+    'optional group Grp = 2 [json_name = "G", deprecated = true, (fo) = 4] { option deprecated = true; map<string, int32> in_grp = 1 [json_name = "ig"]; optional int32 d = 2 [default = -7, json_name = "D"]; } '
+    'repeated group Rep_Grp = 3 [json_name = "rep_grp"] { optional group Inner = 1 [json_name = "i"] { optional int32 y = 1; } } '
+    'oneof o { group OG = 4 [json_name = "og2"] { optional int32 z = 1; } int32 plain = 5 [json_name = "P"]; } extensions 100 to 199; extend M { optional group ExtG = 100 [deprecated = true] { optional int32 e = 1; } } }\n',
+    # proto3 optional: synthetic oneofs next to real ones and to names they would take, with options
+    'syntax = "proto3";\nimport "google/protobuf/descriptor.proto";\nextend google.protobuf.FieldOptions { optional int32 fo = 50001; }\nextend google.protobuf.OneofOptions { optional int32 oo = 50001; }\n'
+    'message P { optional int32 foo = 1 [json_name = "FOO", deprecated = true, (fo) = 1]; int32 _foo = 2; oneof X_foo { option (oo) = 1; int32 a = 3 [json_name = "A"]; } optional P _bar = 4 [json_name = "bar"]; '
+    'optional string __x = 5 [json_name = "x"]; oneof real { string r1 = 6; } optional bool fooBar = 7 [json_name = "foo_bar_7"]; map<string, P> mp = 8 [json_name = "MP"]; }\n',
+    # editions: group-like delimited fields with options, maps inside, file-level delimited encoding
+    'edition = "2023";\noption features.message_encoding = DELIMITED;\nmessage E { message Grp { int32 v = 1; map<int32, E> mm = 2 [json_name = "MM"]; } Grp grp = 1 [json_name = "GRP", deprecated = true]; Grp gRP = 2 [json_name = "grp2"]; '
+    'repeated Grp grps = 3 [features.message_encoding = LENGTH_PREFIXED, json_name = "g"]; map<string, Grp> by_name = 4 [json_name = "byname", features.utf8_validation = NONE]; '
+    'oneof o { Grp in_o = 5 [json_name = "io"]; } int32 req = 6 [features.field_presence = LEGACY_REQUIRED, json_name = "R"]; }\n',
+]
+
+
 CORPUS_WARNED = [
     # the shape of the defect class: default JSON names collide in proto2 (warning from source)
     'syntax = "proto2";\nmessage M { optional string foo_bar = 1; optional string fooBar = 2; }\n',
@@ -230,6 +459,25 @@ CORPUS_WARNED = [
     # explicit json_name equal to the default name: custom for the source compilation, default for the re-link
     'syntax = "proto3";\nmessage M { int32 foo_bar = 1 [json_name = "fooBar"]; int32 baz = 2 [json_name = "baz"]; }\n',
 ]
+
+
+def corpus_dir():
+    """/verif/corpus/C10/*.proto: inputs kept from findings. map-entry-twin-*.proto need the repair fixes/C10-map-entry-twin.diff
+    and are read only with VERIF_C10_MAP_TWINS=1."""
+    out = []
+    for p in sorted(glob.glob(os.path.join(VERIF, "corpus", "C10", "*.proto"))):
+        if os.path.basename(p).startswith("map-entry-twin") and not MAP_TWINS:
+            continue
+        out.append(open(p).read())
+    return out
+
+
+SYNTH_FLOORS = {
+    "map-custom-json": r"map<[^>]*>\s+\w+\s*=\s*\d+\s*\[[^\]]*json_name",
+    "group-options": r"group\s+\w+\s*=\s*\d+\s*\[",
+    "p3opt-options": r"optional\s+\S+\s+\w+\s*=\s*\d+\s*\[",
+    "grouplike-options": r"message_encoding = DELIMITED",
+}
 
 
 def c_jfile(d):
@@ -245,6 +493,7 @@ def run(ctx):
     nprog = ctx.budget(160, 3000)
     nwarn = ctx.budget(70, 1200)    # programs that compile from source with warnings
     ncorr = ctx.budget(30, 400)     # programs whose references are also run through the Coq model
+    nsynth = ctx.budget(60, 1000)   # synthetic constructs x options (gen_synth)
     ctx.rule = ("hand-written programs with shadowing names + every compilable .proto of the repository's internal/testdata (each against the root directory it is written for) + %d generated "
                 "multi-file programs (proto2/proto3/editions, imports incl. public, type references spelled absolute / fully qualified / relative to an enclosing "
                 "message or package prefix, maps, groups, extensions, custom options with message values, services, feature overrides); each compiled and its "
@@ -254,8 +503,14 @@ def run(ctx):
                 "source WITH WARNINGS (every warning-only condition of the compiler: no syntax declaration, unused imports, colliding default JSON names of fields "
                 "and camel-case names of enum values in proto2 / LEGACY_BEST_EFFORT scopes, deprecated features) and carry the pseudo-options json_name (also equal to "
                 "the default) and default; the JSON-name validation of their messages goes through the Coq model with and without the AST; one evaluation = one program x "
-                "modes (the first %d generated programs and all testdata files also go through the Coq model of name resolution); non-trivial = the program has at least one message/enum-typed reference "
-                "or compiled with a warning" % (nprog, nwarn, ncorr))
+                "modes; + %d programs of synthetic constructs x options (map fields, proto2 groups also nested / in oneofs / in extend blocks, proto3 optional fields next "
+                "to real oneofs and to the names their synthetic oneofs would take, editions group-like delimited fields; each with a random subset of json_name - custom, equal to "
+                "the default, upper-cased, the entry name -, default, deprecated, packed, lazy, ctype, jstype, retention, targets, debug_redact, scalar / message-valued / repeated "
+                "custom options, features, and names of 16 shapes: leading / trailing / double underscores, digits, mixed and upper case, ...Entry), each construct forced in turn; "
+                "the run fails if fewer than five accepted programs have a map field with a custom json_name, a group with options, a proto3 optional field with options or a "
+                "group-like field with options "
+                "(the first %d generated programs and all testdata files also go through the Coq model of name resolution); non-trivial = the program has at least one message/enum-typed reference "
+                "or compiled with a warning" % (nprog, nwarn, nsynth, ncorr))
     cases = []
     cfg = pgenlib.Cfg(max_depth=3)
     for k in range(nprog):
@@ -267,7 +522,7 @@ def run(ctx):
         cases.append(c)
     for t in pgenlib.CORPUS_SHADOW:
         cases.insert(0, {"files": {"c.proto": t}, "order": ["c.proto"], "mode": 1, "corr": True, "origin": "corpus"})
-    for t in CORPUS_WARNED + pgenlib.CORPUS_C04 + pgenlib.CORPUS_C04_LOOKUPS:
+    for t in CORPUS_WARNED + CORPUS_SYNTH + corpus_dir() + pgenlib.CORPUS_C04 + pgenlib.CORPUS_C04_LOOKUPS:
         cases.insert(0, {"files": {"c.proto": t}, "order": ["c.proto"], "mode": rng.choice([0, 1, 7]), "corr": False, "jcorr": True, "origin": "corpus"})
     classes = ["unused", "json", "enum", "nosyntax", "deprecated"]
     for k in range(nwarn):
@@ -276,10 +531,17 @@ def run(ctx):
         if rng.chance(1, 4):
             c["mode2"] = rng.choice([0, 1, 3])
         cases.append(c)
+    synth_wants = [None, "map", "group", "p3opt", "grouplike"]
+    for k in range(nsynth):
+        files, order = gen_synth(rng, synth_wants[k % len(synth_wants)], twins=MAP_TWINS and k % 3 == 0)
+        c = {"files": files, "order": order, "mode": rng.choice([0, 1, 1, 3, 7]), "corr": False, "jcorr": True, "origin": "synth"}
+        if rng.chance(1, 4):
+            c["mode2"] = rng.choice([0, 1, 3])
+        cases.append(c)
     # mixed input forms: a random non-empty subset of the files as protos
     for c in cases:
         names = list(c["order"])
-        if c["origin"] in ("generated", "warned", "corpus"):
+        if c["origin"] in ("generated", "warned", "corpus", "synth"):
             sub = [n for n in names if rng.chance(1, 2)] or [rng.choice(names)]
             c["asproto"] = sub
     tcases = testdata_cases()
@@ -314,6 +576,13 @@ def run(ctx):
             ctx.count((c["origin"], tuple(c["order"]), c["mode"], hash(c["files"][c["order"][0]])), False, "rejected" + ("-testdata" if td else ""))
             continue
         stats["testdata_accepted" if td else "accepted"] += 1
+        if c["origin"] == "synth":
+            text = "\n".join(c["files"].values())
+            for fk, pat in SYNTH_FLOORS.items():
+                if fk == "p3opt-options" and 'syntax = "proto3"' not in text:
+                    continue
+                if re.search(pat, text):
+                    stats["synth:" + fk] = stats.get("synth:" + fk, 0) + 1
         nrefs = o.get("nrefs", 0)
         warned = sorted(k for k, n in (o.get("warnings") or {}).items() if n)
         for w in warned:
@@ -376,6 +645,9 @@ def run(ctx):
     for w in ("no-syntax", "unused-import", "json-field", "json-enum", "deprecated-feature"):
         if stats.get("warned:" + w, 0) < 5:
             raise RuntimeError("too few accepted programs with a %s warning: %r" % (w, stats))
+    for fk in SYNTH_FLOORS:
+        if stats.get("synth:" + fk, 0) < 5:
+            raise RuntimeError("too few accepted programs of the synthetic-construct stratum %s: %r" % (fk, stats))
     header = ("From Coq Require Import List Bool String.\nImport ListNotations.\n"
               "From PV Require Import Common.Corr Model.Relink.\nOpen Scope string_scope.\nOpen Scope list_scope.\n")
     uniq = {}
